@@ -93,3 +93,20 @@ package bytes
 //@   loop#1 invariant -1 <= rangeindex && rangeindex < len(b.data)
 //@   loop#1 invariant forall j :: 0 <= j && j <= rangeindex ==> isBlankByte(b.data[j])
 //@   loop#1 decreases len(b.data) - rangeindex
+
+// ---- user type names (C05, C10 callers) ---------------------------------------------------------------
+
+//@ pred isUserTypeNameByte(c Int) := c == 45 || c == 95 || (97 <= c && c <= 122) || (65 <= c && c <= 90) || (48 <= c && c <= 57)
+
+//@ func IsValidUserTypeNameByte
+//@   property C05
+//@   ensures result == isUserTypeNameByte(c)
+//@   no_panic
+
+//@ func (Bytes).IsUserTypeName
+//@   property C05
+//@   ensures result == (len(b.data) >= 2 && b.data[0] == 64 && (forall i :: 1 <= i && i < len(b.data) ==> isUserTypeNameByte(b.data[i])))
+//@   no_panic
+//@   loop#1 invariant -1 <= rangeindex && rangeindex < len(b.data) - 1 && len(b.data) >= 2 && b.data[0] == 64
+//@   loop#1 invariant forall i :: 1 <= i && i <= rangeindex + 1 ==> isUserTypeNameByte(b.data[i])
+//@   loop#1 decreases len(b.data) - rangeindex
